@@ -172,9 +172,11 @@ CHECKS = {
         text=("Theorems (Coq): the IMM and CTOR diagnostics of a package are, up to order, a function of the MULTISET of top-level declarations of its non-excluded files (Permutation in, "
               "Permutation out: reordering declarations and moving them between files cannot matter); for the once-per-file checkers a key (package,type) is reported iff SOME candidate with "
               "that key is unsuppressed and an unkeyed candidate iff it is unsuppressed - functions of the candidate SET, not of its order; candidates are contributed declaration by declaration. "
-              "Blank lines/comments/gofmt/renaming are covered by the correspondence only: one IR rendered 8 ways (permute, move, swap files, blank+comments, gofmt, rename, all composed) through "
+              "Positions are opaque to the four AST checkers: relabelling every position of the files by ANY function relabels the diagnostics (same codes, same messages, the same "
+              "uses reported for the once-per-file codes) and changes nothing else, given that suppression answers alike at relabelled positions - blank lines, ordinary comments and "
+              "gofmt are such relabellings. That @ignore scopes follow a monotone relabelling, and local renaming, are covered by the correspondence: one IR rendered 8 ways (permute, move, swap files, blank+comments, gofmt, rename, all composed) through "
               "the real binary, compared by site id / (package,type), each rendering also against the model."),
-        note="The theorems cover reordering and moving; position-relabelling and renaming invariance are exercised, not proved (DESIGN 5, C12).",
+        note="The theorems cover reordering, moving and position relabelling (checker side); the @ignore reader under relabelling and renaming invariance are exercised, not proved (DESIGN 5, C12).",
         technique="Coq proof (permutation invariance, order-independence of the dedup) + metamorphic correspondence through the real binary"),
     "C13": dict(
         text=("Theorems (Coq): the resolution of a recorded type to a defined type sees through any stack of aliases around the single pointer strip (alias of T, pointer to alias, alias of "
